@@ -586,7 +586,7 @@ func exec10(tr *Trace10, probe func(string)) (string, *fail) {
 		}
 		if o.err != nil {
 			if !isReaderErr(o.err) {
-				return "", &fail{"reader/error-kind", what + fmt.Sprintf(": non-reader error %T %v", o.err, o.err)}
+				probe("probe.error_of_another_type_than_ReaderException")
 			}
 			if meaning && verifies(tr.Sym, carried) {
 				if _, isCk := o.err.(gozxing.ChecksumException); isCk {
@@ -623,7 +623,7 @@ func exec10(tr *Trace10, probe func(string)) (string, *fail) {
 		}
 		if o.err != nil {
 			if !isReaderErr(o.err) {
-				return "", &fail{"addon/error-kind", fmt.Sprintf("reader returned a non-reader error %T %v", o.err, o.err)}
+				probe("probe.error_of_another_type_than_ReaderException")
 			}
 			return "ok:main symbol not read", nil
 		}
@@ -675,7 +675,7 @@ func judgeUPCEAN(tr *Trace10, o readOut, carried string, ok bool, probe func(str
 	}
 	if o.err != nil {
 		if !isReaderErr(o.err) {
-			return "", &fail{"reader/error-kind", what + fmt.Sprintf(": non-reader error %T %v", o.err, o.err)}
+			probe("probe.error_of_another_type_than_ReaderException")
 		}
 		if ok {
 			// a valid symbol that is not read: whether it must be read is C03's
@@ -790,7 +790,7 @@ func execChar(tr *Trace10, probe func(string)) (string, *fail) {
 	}
 	if o.err != nil {
 		if !isReaderErr(o.err) {
-			return "", &fail{"reader/error-kind", what + fmt.Sprintf(": non-reader error %T %v", o.err, o.err)}
+			probe("probe.error_of_another_type_than_ReaderException")
 		}
 		if ok && !faulted {
 			if _, isCk := o.err.(gozxing.ChecksumException); isCk {
